@@ -127,6 +127,22 @@ pub fn format_type_description(input: &str) -> String {
                 output.push(ch);
             }
         }
+        #[cfg(scale_typegen_verif)]
+        crate::verif_hooks::emit(format!(
+            r#"{{"ev":"fmt","ch":{},"indent":{indent_level},"tuple":"{}","angle":"{}","out":{}}}"#,
+            ch as u32,
+            match tuple_level.last() {
+                None => "",
+                Some(Scope::Big) => "big",
+                Some(Scope::Small) => "small",
+            },
+            match angle_level.last() {
+                None => "",
+                Some(Scope::Big) => "big",
+                Some(Scope::Small) => "small",
+            },
+            output.chars().count()
+        ));
     }
     output
 }
